@@ -12,6 +12,8 @@ def realize_op(project, op):
     k = op[0]
     if k == "edit":
         return rc.ChangeContents(project.get_file(op[1]), op[2])
+    if k == "bytes":
+        return rc.ChangeContents(project.get_file(op[1]), op[2].encode("latin-1"))
     if k in ("mkdir", "mkfile"):
         path = op[1]
         parent, _, name = path.rpartition("/")
@@ -68,7 +70,7 @@ def struct_of(change, nested_time=True, _top=True):
         t = change.time if (nested_time or _top) else None
         return ["set", change.description, t, [struct_of(c, nested_time, False) for c in change.changes]]
     if isinstance(change, rc.ChangeContents):
-        return ["edit", change.resource.path, _kind(change.resource), change.new_contents, change.old_contents]
+        return ["edit", change.resource.path, _kind(change.resource), _txt(change.new_contents), _txt(change.old_contents)]
     if isinstance(change, rc.MoveResource):
         return [
             "move",
@@ -82,6 +84,10 @@ def struct_of(change, nested_time=True, _top=True):
     if isinstance(change, rc.RemoveResource):
         return ["remove", change.resource.path, _kind(change.resource)]
     return ["other", type(change).__name__]
+
+
+def _txt(c):
+    return ["bytes", c.decode("latin-1")] if isinstance(c, bytes) else c
 
 
 def _kind(res):
